@@ -179,3 +179,7 @@ def run(chk):
     run_kernels(chk, items)
     L1m.settle(chk, [o for o in chk.obs if "panic" in o.name and not o.ok()], lambda: misuse_battery(chk.seed), "misuse panics")
     chk.samples = [o.j() for o in chk.obs if "every feasible path panics" in o.name][:6]
+
+
+def safety_net(chk):
+    return misuse_battery(chk.seed)
